@@ -385,7 +385,7 @@ pub fn judge(req: &CellReq, base: &Base, info: &BodyInfo, res: &CellRes) -> Verd
         v.findings.push((
             format!("run-failed/{}/{}/{}", mode.name(), req.sched.family(), short(msg)),
             format!(
-                "{:?} with {}: the run failed although no execution needs more than n steps under FailAfter / at all under ContinueAfter or None: {}",
+                "{:?} with {}: the run failed with a panic the bound does not call for (under FailAfter no execution so far needs more than n steps; under ContinueAfter / None a run never fails on the bound): {}",
                 mode,
                 req.sched.describe(),
                 msg
